@@ -32,6 +32,15 @@ def gen_decl(rnd, k, opts=None):
     asyncs = {i: rnd.random() < p_async for i in range(n)}
     fall = {i: rnd.random() < p_fall for i in range(n)}
     structnode = rnd.choice([None, None, None] + list(range(1, n))) if n > 2 and opts.get("structs", True) else None
+    if n > 1 and opts.get("structs", True) and not opts.get("ret_is_arg") and rnd.random() < 0.06:
+        structnode = 0          # the requested type is supplied only by a field of an expanded struct
+    if structnode == 0:
+        # the requested field type is a struct value: goroutines together with an error result would only reproduce
+        # known finding KF-C04-2 (`return nil, err`), so such a declaration keeps one of the two
+        if rnd.random() < 0.5:
+            asyncs = {i: False for i in range(n)}
+        else:
+            fall = {i: False for i in range(n)}
     nf = rnd.choice([1, 2, 3]) if structnode is not None else 0
     nargs = rnd.choice([0, 0, 1, 2, 3])
     # multi-value: node i also returns X_i, consumed by an earlier node (or by nobody)
@@ -47,6 +56,14 @@ def gen_decl(rnd, k, opts=None):
         j = rnd.choice([x for x in range(1, n) if x != structnode])
         binds.add(j)
         second.setdefault(j, rnd.choice([None] + list(range(0, j))))
+    # further results of a multi-value node (three- and four-valued providers); mostly requested by nobody, so that a call
+    # has several blank results
+    extra = {}
+    for i in sorted(second):
+        if rnd.random() < 0.4:
+            extra[i] = [("Y", rnd.choice([None, None] + list(range(0, i))))]
+            if rnd.random() < 0.5:
+                extra[i].append(("Z", rnd.choice([None, None] + list(range(0, i)))))
     # values: leaves rendered as kessoku.Value(var)
     values = {j for j in range(1, n) if not deps[j] and j != structnode and j not in second and rnd.random() < 0.2}
     argdeps = {i: [a for a in range(nargs) if rnd.random() < 0.3] for i in range(n)}
@@ -84,6 +101,7 @@ def gen_decl(rnd, k, opts=None):
         for j in deps[i]:
             req += dep_types(i, j)
         req += ["*%sX%d" % (P, j) for j, c in second.items() if c == i]
+        req += ["*%s%s%d" % (P, sfx, j) for j, l in sorted(extra.items()) for sfx, c in l if c == i]
         req += [A(a) for a in argdeps[i]]
         if i in values:
             req = []
@@ -103,6 +121,8 @@ def gen_decl(rnd, k, opts=None):
             prv[0].append("%sIF%db" % (P, i))
         if i in second:
             prv.append(["*%sX%d" % (P, i)])
+            for sfx, _c in extra.get(i, []):
+                prv.append(["*%s%s%d" % (P, sfx, i)])
         if i in values:
             provs[i] = dict(kind="value", var="%sV%d" % (P, i), fn=None, requires=[], provides=prv, fallible=False, node=i,
                             bind=(["%sIF%d" % (P, i)] if i in binds else []) + (["%sIF%db" % (P, i)] if i in binds2 else []), **{"async": False})
@@ -384,6 +404,43 @@ def mutate_malformed(rnd, d, kind):
         d["layout"] = list(range(len(d["provs"])))
         d["kind"] = "dup"
         d["expect"] = dict(err="dup", types=[t])
+        return d
+    if kind == "dup_sets":
+        # a duplicate that exists only after Sets are flattened: the two suppliers sit in different Sets of one Inject call
+        # and are spelled alike (the very same Provide(f); two Value(&T{...}) literals with different contents; two function
+        # literals with different bodies)
+        how = rnd.choice(["same_provide", "value_lits", "closures"])
+        if how == "same_provide":
+            if not fnidx:
+                return None
+            o = rnd.choice(fnidx)
+            q = dict(d["provs"][o], copy_of=d["provs"][o]["fn"], dup=True, lit=False)
+            d["provs"][o]["lit"] = False
+            t = d["provs"][o]["provides"][0][0]
+            d["provs"].append(q)
+        else:
+            t = "*%sDV" % P
+            if how == "value_lits":
+                q1 = dict(kind="value", var="%sDVa" % P, inline="a", fn=None, requires=[], provides=[[t]], fallible=False, node=None, bind=[], dup=True, **{"async": False})
+                q2 = dict(kind="value", var="%sDVb" % P, inline="b", fn=None, requires=[], provides=[[t]], fallible=False, node=None, bind=[], dup=True, **{"async": False})
+            else:
+                q1 = dict(kind="fn", fn="New%sDup" % P, requires=[], provides=[[t]], fallible=False, node=None, bind=[], dup=True, lit=True, **{"async": False})
+                q2 = dict(kind="fn", fn="New%sDup2" % P, requires=[], provides=[[t]], fallible=False, node=None, bind=[], dup=True, lit=True, **{"async": False})
+            o = rnd.randrange(len(d["provs"]) + 1)
+            d["provs"].insert(o, q1)
+            d["provs"].append(q2)
+            if rnd.random() < 0.6 and fnidx:
+                tgt = rnd.choice([p_ for p_ in d["provs"] if p_["kind"] == "fn" and p_.get("node") is not None])
+                tgt["requires"] = tgt["requires"] + [t]
+        m = len(d["provs"])
+        cut = rnd.randint(o + 1, m - 1)
+        second = ("set", list(range(cut, m)))
+        if rnd.random() < 0.3:
+            second = ("setvar", [second])
+        d["layout"] = [("setvar", list(range(0, cut))), (rnd.choice(["set", "setvar"]), second[1]) if second[0] == "set" else second]
+        d["kind"] = "dup"
+        d["expect"] = dict(err="dup", types=[t])
+        d["meta"] = dict(d.get("meta", {}), dup_sets=how)
         return d
     if kind == "dupfield":
         # one Struct expansion whose struct has two exported fields of the same type
@@ -698,8 +755,12 @@ def render_provider(d, i, p):
     P = d["prefix"]
     if p["kind"] == "struct":
         return ""
+    if p.get("copy_of"):
+        return ""           # the same provider function listed a second time
     if p["kind"] == "value":
         t = p["provides"][0][0]
+        if p.get("inline"):
+            return ""       # written as a composite literal inside kessoku.Value(...)
         return "var %s = &%s{S: \"V:%s\"}\n" % (p["var"], t.lstrip("*"), p["var"])
     params = ", ".join("p%d %s" % (q, t) for q, t in enumerate(p["requires"]))
     errty = p.get("errtype", "error")
@@ -743,6 +804,8 @@ def provider_expr(d, p):
         return e
     if p["kind"] == "value":
         e = "kessoku.Value(%s)" % p["var"]
+        if p.get("inline"):
+            e = "kessoku.Value(&%s{S: \"V:%s\"})" % (p["provides"][0][0].lstrip("*"), p["var"])
         for iface in p.get("bind", []):
             e = "kessoku.Bind[%s](%s)" % (iface, e)
         return e
